@@ -8,7 +8,8 @@ CONFIG = {
              'x 1-4 ops) is covered by search (recorded histories checked against the extracted sequential model), not by proof',
     'rule': 'histories of 2-4 goroutines x 1-4 ops over /d /d/x /d/y /f /g on one MemMapFs after a short sequential setup; families: '
             'excl-create, create-race, mkdir, mkdir-remove, removeall, rename, torn-read, handle-io, create-vs-io, unrelated, '
-            'metadata, random (whole op mix, private handles). A Stat is recorded as lookup + one call per FileInfo accessor (the '
+            'metadata, random (whole op mix, private handles); 86 fixed window configurations (Readdirnames on an open directory || Rename of a child, '
+            'OpenFile with O_TRUNC/O_APPEND || Create, Write, Chtimes, Rename, Remove, Chmod on the same name), every schedule, in both tiers. A Stat is recorded as lookup + one call per FileInfo accessor (the '
             'FileInfo is a live view). stress: real scheduler, start barrier, jitter, every program repeated, distinct histories '
             '(stamps replaced by ranks) emitted once; dfs/rand: second binary built from an instrumented copy of memmap.go and '
             'mem/file.go (lock operations = yield points of a cooperative scheduler), schedules enumerated depth-first for 2-3 '
